@@ -104,6 +104,9 @@ theorem aret_origin (s : State) (st : Step) (c sid : Nat) (r : Res)
   | ioPeerClose sid' =>
     simp only [step, doPeerClose] at h
     split at h <;> exact Or.inl h
+  | timerClose sid' =>
+    simp only [step, doFail] at h
+    split at h <;> exact Or.inl h
   | ioStep =>
     simp only [step, doIoStep] at h
     split at h
@@ -157,6 +160,10 @@ theorem closeBegins_not_closed (s : State) (st : Step) (sid : Nat) (h : closeBeg
     · rename_i hc; simp at h hc; subst h; rw [hc.2]; simp
     · cases h
   case ioPeerClose sid' =>
+    split at h
+    · rename_i hc; simp at h hc; subst h; rw [hc.2]; simp
+    · cases h
+  case timerClose sid' =>
     split at h
     · rename_i hc; simp at h hc; subst h; rw [hc.2]; simp
     · cases h
@@ -302,6 +309,9 @@ theorem wrapCancelled_origin {s : State} (hI : Inv s) (st : Step) (c : Nat)
     split at h <;> exact Or.inl h
   | ioPeerClose sid' =>
     simp only [step, doPeerClose] at h
+    split at h <;> exact Or.inl h
+  | timerClose sid' =>
+    simp only [step, doFail] at h
     split at h <;> exact Or.inl h
   | ioStep =>
     simp only [step, doIoStep] at h
